@@ -64,7 +64,7 @@ def _work(args):
 
 def run_batch(prop, seed, n_runs, tier, workers=None, chunk=None, start=0, wall_budget=None):
     workers = workers or int(os.environ.get('VERIF_WORKERS', '0')) or min(16, os.cpu_count() or 1)
-    chunk = chunk or max(1, min(25, n_runs // (workers * 4) or 1))
+    chunk = chunk or getattr(engine_for(prop), 'chunk', None) or max(1, min(25, n_runs // (workers * 4) or 1))
     runs = list(range(start, start + n_runs))
     chunks = [runs[i:i + chunk] for i in range(0, len(runs), chunk)]
     sample_runs = set(runs[:3])
